@@ -41,21 +41,69 @@ LEVEL_TEXT = (
     "actually created, so no expected outputs are needed."
 )
 LEVEL_NOTE = (
-    "'uses a missing variable' is approximated from above by 'the default-policy render created an Undefined' (eager "
-    "but unused undefineds such as forloop.parentloop make rule (ii) weaker, never stricter); only the names of the "
-    "grammar's data domain are deleted."
+    "'uses a missing variable' is decided from the default-policy run of the same program and data: a recording "
+    "Undefined subclass counts every touch that a strict undefined would refuse (attribute access outside the allowed "
+    "list and every special method StrictUndefined overrides); a strict error with no such touch is a violation. Only "
+    "the names of the grammar's data domain are deleted."
 )
 TECHNIQUE = "bounded-exhaustive enumeration of programs x deletion lattice x policies with a policy-differential oracle and a recording Undefined"
 ASSUMPTIONS = ["Environment(undefined=...) is a public extension point; the recording subclass only counts instantiations"]
 
 
 class RecUndefined(Undefined):
+    """The default Undefined, recording how many were created and how many times one was *touched* in a way that a
+    strict undefined refuses (any attribute outside StrictUndefined.allowed_properties, and every special method
+    StrictUndefined overrides). Behaviour is unchanged."""
+
     __slots__ = ()
     created = 0
+    touched = 0
+    _quiet = frozenset(StrictUndefined.allowed_properties) | {"__class__", "__slots__", "__dict__"}
 
     def __init__(self, *a: Any, **kw: Any) -> None:
         super().__init__(*a, **kw)
         RecUndefined.created += 1
+
+    def __getattribute__(self, name: str) -> Any:
+        if name not in RecUndefined._quiet:
+            RecUndefined.touched += 1
+        return object.__getattribute__(self, name)
+
+    def __contains__(self, item: object) -> bool:
+        RecUndefined.touched += 1
+        return super().__contains__(item)
+
+    def __eq__(self, other: object) -> bool:
+        RecUndefined.touched += 1
+        return super().__eq__(other)
+
+    def __getitem__(self, key: Any) -> object:
+        RecUndefined.touched += 1
+        return super().__getitem__(key)
+
+    def __len__(self) -> int:
+        RecUndefined.touched += 1
+        return super().__len__()
+
+    def __iter__(self):  # noqa: ANN204
+        RecUndefined.touched += 1
+        return super().__iter__()
+
+    def __str__(self) -> str:
+        RecUndefined.touched += 1
+        return super().__str__()
+
+    def __int__(self) -> int:
+        RecUndefined.touched += 1
+        return super().__int__()
+
+    def __hash__(self) -> int:
+        RecUndefined.touched += 1
+        return super().__hash__()
+
+    def __reversed__(self):  # noqa: ANN204
+        RecUndefined.touched += 1
+        return super().__reversed__()
 
 
 _STATE: dict[str, Any] = {}
@@ -146,8 +194,10 @@ def check_case(case: dict[str, Any], res: ShardResult | None) -> list[tuple[str,
     created_some = created_none = False
     for d in _STATE["data"]:
         RecUndefined.created = 0
+        RecUndefined.touched = 0
         base = _render(ts["default"], d)
         created = RecUndefined.created
+        touched = RecUndefined.touched
         if created:
             created_some = True
         else:
@@ -159,11 +209,11 @@ def check_case(case: dict[str, Any], res: ShardResult | None) -> list[tuple[str,
             out.append((f"C16:default-raises-UndefinedError:{_construct(src)}", "default policy never raises UndefinedError", {"data": d}))
         for pol in ("strict", "falsy"):
             o = _render(ts[pol], d)
-            if o[0] == "undefined" and created == 0:
+            if o[0] == "undefined" and (created == 0 or touched == 0):
                 out.append(
                     (
-                        f"C16:{pol}-raises-with-nothing-missing:{_construct(src)}",
-                        {"default": base, "undefined_created_by_default_render": 0},
+                        f"C16:{pol}-raises-with-nothing-missing:{_construct(src)}" if created == 0 else f"C16:{pol}-raises-although-no-undefined-was-used:{_construct(src)}",
+                        {"default": base, "undefined_created_by_default_render": created, "undefined_touched_by_default_render": touched},
                         {"policy": pol, "render": "UndefinedError", "data": d},
                     )
                 )
